@@ -196,7 +196,7 @@ func (r *Report) Finish(verifDir string, explanation string, notDecided []string
 	var samples []Obligation
 	perRule := map[string]int{}
 	for _, o := range r.Obls {
-		if o.Status != "ok" || perRule[o.Rule] < 3 {
+		if o.Status != "ok" || o.Config == "control" || perRule[o.Rule] < 3 {
 			samples = append(samples, o)
 			perRule[o.Rule]++
 		}
